@@ -388,6 +388,57 @@ def kind_ok(a, mode):
     return want is None or isinstance(a, want)
 
 
+AHDR = ('From Coq Require Import List String Bool.\nFrom PF Require Import models.Alias.\nImport ListNotations.\nLocal Open Scope string_scope.\n'
+        'Definition os_eqb (a b : option string) : bool := match a, b with Some x, Some y => String.eqb x y | None, None => true | _, _ => false end.\n')
+
+
+def stage_alias(ctx: Ctx):
+    """models/Alias.v to_alias == as_('alias') / FST(pure ast, 'alias') / single-element _aliases on attribute chains of 1..6 identifiers (also spread over
+    blanks, continuation lines and parentheses) and on chains whose base is not a name (refused)"""
+    import fst
+    rng = ctx.rng
+    idents = ['a', 'b', 'pkg', 'sub', 'mod', 'name', 'x1', '_p', 'as_', 'import_']
+    terms, meta = [], []
+    for it in range(ctx.scale(150, 1500)):
+        n = rng.randrange(1, 7)
+        ids = [rng.choice(idents) for _ in range(n)]
+        base = rng.choice(['name'] * 5 + ['call', 'sub', 'const'])
+        btxt = {'name': ids[0], 'call': ids[0] + '()', 'sub': ids[0] + '[0]', 'const': '"s"'}[base]
+        layout = rng.choice(['plain', 'plain', 'spaces', 'cont', 'pars'])
+        dot = {'plain': '.', 'spaces': ' . ', 'cont': ' \\\n . ', 'pars': '.'}[layout]
+        src = btxt
+        for k, x in enumerate(ids[1:]):
+            if layout == 'pars' and rng.random() < 0.5:
+                src = '(' + src + ')'
+            src = src + dot + x
+        e = ('DName ' + cstr(ids[0])) if base == 'name' else 'DOther'
+        for x in ids[1:]:
+            e = f'DAttr ({e}) {cstr(x)}'
+        got = []
+        for route in ('fst', 'ast', 'aliases'):
+            try:
+                if route == 'fst':
+                    r = fst.FST(src, 'expr').as_('alias')
+                elif route == 'ast':
+                    r = fst.FST(ast.parse(src, mode='eval').body, 'alias')
+                else:
+                    r = fst.FST(src, 'expr').as_('_aliases')
+                    r = r.names[0] if len(r.a.names) == 1 else None
+                got.append(r.a.name if r is not None and isinstance(r.a, ast.alias) and r.a.asname is None else '?')
+            except Exception as ex:
+                got.append(None)
+        ctx.tick(('alias', src), f'alias:{base}:{layout}:{n}')
+        if len(set(got)) != 1 or got[0] == '?':
+            ctx.violation(f'alias-routes|{base}|{got}', 'coercing an attribute chain to an alias differs between the formatted node, its pure AST and the one-element sequence route',
+                          {'src': src, 'as_alias': got[0], 'FST(ast, alias)': got[1], 'as__aliases': got[2]})
+            continue
+        terms.append(f'os_eqb (to_alias ({e})) ' + ('None' if got[0] is None else f'(Some {cstr(got[0])})'))
+        meta.append({'src': src, 'real': got[0], 'model_term': e})
+    failed = coq_eval_bools('C19_alias', AHDR, terms, shard=150)
+    ctx.correspondence("models/Alias.v to_alias == alias name / refusal of as_('alias'), FST(ast, 'alias') and as_('_aliases') on attribute chains (layouts: plain, blanks, continuation lines, parentheses)",
+                       len(terms), [meta[i] for i in failed])
+
+
 def stage_matrix(ctx: Ctx, progs):
     import fst
     rng = ctx.rng
@@ -531,6 +582,7 @@ def run(ctx: Ctx):
     if ok:
         ctx.build_props()
     run_guarded(ctx, stage_corr)
+    run_guarded(ctx, stage_alias)
     progs = corpus(ctx.rng, gen=ctx.scale(10, 60))
     run_guarded(ctx, stage_matrix, progs)
 
